@@ -2,6 +2,7 @@ package wit
 
 import (
 	"errors"
+	"fmt"
 	"reflect"
 	"sync"
 	"testing"
@@ -420,5 +421,82 @@ func TestD18(t *testing.T) {
 		if r.Err() != nil {
 			t.Fatalf("derivable call failed: %v", r.Err())
 		}
+	}
+}
+
+// ---- D19 (C15, C06): BuildFunc with a nil input set ----
+func TestD19(t *testing.T) {
+	out, err := am.NewValueSet([]am.Value{{Name: "a", Type: reflect.TypeOf(int(0))}})
+	if err != nil {
+		t.Fatal(err)
+	}
+	// BuildFunc documents that a nil input (or output) set stands for "no values"
+	f, err := am.BuildFunc(nil, out, func(in, o *am.ValueSet) error {
+		o.Named("a").Value = reflect.ValueOf(42)
+		return nil
+	})
+	if err != nil {
+		t.Fatal(err)
+	}
+	r := f.Call(nolog)
+	if r.Err() != nil {
+		t.Fatal(r.Err())
+	}
+	// and as a provider for another function
+	g := am.MustFunc(am.NewFunc(func(in struct {
+		am.Struct
+		A int
+	}) int {
+		return in.A
+	}))
+	r = g.Call(nolog, am.ConverterFunc(f))
+	if r.Err() != nil || r.Out(0).(int) != 42 {
+		t.Fatal(r.Err())
+	}
+}
+
+// ---- D20 (C08): a redefined function with an input of an interface type ----
+type StrImpl int
+
+func (i StrImpl) String() string { return fmt.Sprint(int(i)) }
+
+func TestD20(t *testing.T) {
+	f := am.MustFunc(am.NewFunc(func(in struct {
+		am.Struct
+		W fmt.Stringer
+		N int
+	}) string {
+		return in.W.String()
+	}))
+	g, err := f.Redefine(nolog, am.Named("n", 1))
+	if err != nil {
+		t.Fatal(err)
+	}
+	for _, v := range g.Input().Values() {
+		t.Logf("input %s", v.String())
+	}
+	r := g.Call(nolog, am.Named("w", StrImpl(5)))
+	t.Logf("redefined with Named: err=%v", r.Err() != nil)
+	r2 := g.Call(nolog, am.Typed(StrImpl(5)))
+	t.Logf("redefined with Typed: err=%v", r2.Err() != nil)
+	if r.Err() != nil && r2.Err() != nil {
+		t.Fatalf("the redefined function cannot be called with a value for its declared input: %v", reflect.TypeOf(r2.Err()))
+	}
+}
+
+
+// ---- D21 (C12): Redefine copied a FuncOnce function without its lock (run with -race) ----
+func TestD21(t *testing.T) {
+	for i := 0; i < 300; i++ {
+		conv := am.MustFunc(am.NewFunc(func(s string) int { return len(s) }, am.FuncOnce()))
+		f := am.MustFunc(am.NewFunc(func(n int) int { return n }))
+		var wg sync.WaitGroup
+		wg.Add(2)
+		go func() { defer wg.Done(); f.Call(nolog, am.Typed("abc"), am.ConverterFunc(conv)) }()
+		go func() {
+			defer wg.Done()
+			f.Redefine(nolog, am.ConverterFunc(conv), am.FilterInput(am.FilterType(reflect.TypeOf(""))))
+		}()
+		wg.Wait()
 	}
 }
